@@ -81,20 +81,26 @@ Definition spec_C06 (c : c06case) (obs : list Z) : bool :=
   end.
 
 (* known-finding classes (known_findings.d/C06.json):
-   1  same kind, but the two rows differ in shape: an optional field is present in one and absent in
-      the other, or bytes moved across the boundary of two fields (unseparated concatenation)
-   2  rows of two different kinds (no kind separation in the digest)
+   1  two rows of the same kind with the SAME signed bytes that differ in shape: an optional field is
+      present in one and absent in the other, or bytes moved across the boundary of two fields
+      (unseparated concatenation)
+   2  two rows of different kinds with the SAME signed bytes (no kind separation in the digest)
+      (two rows with different bytes under one signature are in no class: always a violation)
    3  identity challenge equal to the digest of a row (raw signing oracle)
    4  (fixed 6d1bd7f) a reference whose fields fit the size bound but not together with the 64
       signature bytes was accepted by sign() and refused by verify() *)
 Definition known_C06_gen (Hf : list byte -> list byte) (c : c06case) : list Z :=
   match c with
   | CPair k1 r1 _ k2 r2 _ =>
-      if negb (N.eqb k1 k2) then [2]
-      else match layout_of k1 with
-           | Some l => if list_eqb N.eqb (shape l r1) (shape l r2) then [] else [1]
-           | None => []
-           end
+      match layout_of k1, layout_of k2 with
+      | Some l1, Some l2 =>
+          (* only collisions the unseparated concatenation explains: the two rows have the SAME bytes *)
+          if bytes_eqb (enc l1 r1) (enc l2 r2) then
+            if negb (N.eqb k1 k2) then [2]
+            else if list_eqb N.eqb (shape l1 r1) (shape l1 r2) then [] else [1]
+          else []
+      | _, _ => []
+      end
   | COracle k r _ c =>
       match layout_of k with
       | Some l => if bytes_eqb (challenge_of Hf l r c) (Hf (enc l r)) then [3] else []
